@@ -409,6 +409,112 @@ func genProg(r *vh.Rng, id int) *prog {
 	return p
 }
 
+// ---------- class index: index expressions that resemble the generics syntax `name#[T1, T2]` / `name[T]` ----------
+// maps keyed by struct / array / interface types indexed by TYPED composite literals (the generics extension encodes
+// `name#[A, B]` as an IndexExpr whose index is a TYPE-LESS composite literal), with the operand a global / local / parameter
+// identifier, a selector, a call result or a parenthesised expression; as value, assignment target, op-assignment, ++,
+// comma-ok, call of the element, address of the element, delete; indexes that are index / selector / call expressions OVER a
+// composite literal; generic-free by construction.
+func genIndex(r *vh.Rng, sfx string) (string, string) {
+	var sb strings.Builder
+	fmt.Fprintf(&sb, "type K%[1]s struct{ X, Y int }\ntype A%[1]s [2]int\ntype N%[1]s struct {\n\tP K%[1]s\n\tT string\n}\ntype H%[1]s struct{ m map[K%[1]s]int }\n", sfx)
+	fmt.Fprintf(&sb, "var grid%[1]s = map[K%[1]s]int{{1, 2}: %d, {0, 0}: %d}\nvar pairs%[1]s = map[[2]int]string{{1, 2}: \"a\"}\nvar named%[1]s = map[A%[1]s]int{}\n", sfx, lit(r), lit(r))
+	fmt.Fprintf(&sb, "var nest%[1]s = map[N%[1]s]int{}\nvar fm%[1]s = map[K%[1]s]func(int) int{{1, 1}: func(x int) int { return x + %d }}\n", sfx, lit(r))
+	fmt.Fprintf(&sb, "func mk%[1]s() map[K%[1]s]int { return grid%[1]s }\nfunc (k K%[1]s) Sum() int { return k.X + k.Y }\n", sfx)
+	fmt.Fprintf(&sb, "func run%[1]s() string {\n\tvar out []interface{}\n\tx, y := %d, %d\n\tlocal := map[K%[1]s]int{}\n\th := H%[1]s{m: map[K%[1]s]int{}}\n\tim := map[interface{}]int{}\n", sfx, lit(r), lit(r))
+	fmt.Fprintf(&sb, "\tidx := []int{10, 20, 30}\n\tarr := [3]int{}\n\tgrids := []map[K%[1]s]int{grid%[1]s, local}\n\tpm := map[*K%[1]s]int{}\n\t_, _, _, _, _, _, _, _ = local, h, im, idx, arr, grids, pm, y\n", sfx)
+	key := func() string {
+		switch r.Intn(5) {
+		case 0:
+			return fmt.Sprintf("K%s{x, y}", sfx)
+		case 1:
+			return fmt.Sprintf("K%s{X: x}", sfx)
+		case 2:
+			return fmt.Sprintf("K%s{%d, %d}", sfx, r.Intn(3), r.Intn(3))
+		case 3:
+			return fmt.Sprintf("K%s{Y: y, X: %d}", sfx, lit(r))
+		}
+		return fmt.Sprintf("K%s{}", sfx)
+	}
+	akey := func() string {
+		return []string{"[2]int{x, y}", "[...]int{1, 2}", "[2]int{1: x}", "[2]int{}"}[r.Intn(4)]
+	}
+	operand := func() string { // an expression of type map[K]int
+		switch r.Intn(7) {
+		case 0, 1:
+			return "grid" + sfx
+		case 2:
+			return "local"
+		case 3:
+			return "h.m"
+		case 4:
+			return "mk" + sfx + "()"
+		case 5:
+			return "(grid" + sfx + ")"
+		}
+		return "grids[x&1]"
+	}
+	lv := func() string { // an assignable map of type map[K]int whose operand is an identifier or selector
+		return []string{"grid" + sfx, "local", "h.m", "grids[1]"}[r.Intn(4)]
+	}
+	tmpl := []func() string{
+		func() string { return fmt.Sprintf("%s[%s] = %d", lv(), key(), lit(r)) },
+		func() string { return fmt.Sprintf("%s[%s]++", lv(), key()) },
+		func() string { return fmt.Sprintf("%s[%s] += %d", lv(), key(), lit(r)) },
+		func() string { return fmt.Sprintf("out = append(out, %s[%s])", operand(), key()) },
+		func() string {
+			return fmt.Sprintf("if v, ok := %s[%s]; ok || v == 0 {\n\t\tout = append(out, v, ok)\n\t}", operand(), key())
+		},
+		func() string { return fmt.Sprintf("pairs%s[%s] = %q", sfx, akey(), "s"+fmt.Sprint(lit(r))) },
+		func() string {
+			return fmt.Sprintf("out = append(out, pairs%s[%s]+pairs%s[%s])", sfx, akey(), sfx, akey())
+		},
+		func() string {
+			return fmt.Sprintf("named%[1]s[A%[1]s{x, y}] += %d\n\tout = append(out, named%[1]s[A%[1]s{x, y}], named%[1]s[A%[1]s{1: 7}])", sfx, lit(r))
+		},
+		func() string {
+			return fmt.Sprintf("nest%[1]s[N%[1]s{%s, \"t\"}]++\n\tout = append(out, nest%[1]s[N%[1]s{P: %s}], len(nest%[1]s))", sfx, key(), key())
+		},
+		func() string {
+			return fmt.Sprintf("if f := fm%[1]s[K%[1]s{1, %d}]; f != nil {\n\t\tout = append(out, f(x), fm%[1]s[K%[1]s{1, 1}](y))\n\t}", sfx, r.Intn(2))
+		},
+		func() string {
+			return fmt.Sprintf("delete(%s, %s)\n\tout = append(out, len(grid%s))", lv(), key(), sfx)
+		},
+		func() string { return "out = append(out, idx[[]int{2, 0, 1}[x&1]], idx[[3]int{1, 2}[1]])" },
+		func() string { return "out = append(out, idx[struct{ i int }{1}.i], idx[len([]int{1, 2})])" },
+		func() string { return fmt.Sprintf("out = append(out, idx[%s.Sum()&1], idx[(%s).X&1])", key(), key()) },
+		func() string {
+			return fmt.Sprintf("arr[[1]int{2}[0]] = %d\n\tarr[[]int{0, 1}[1]] += %d\n\tout = append(out, arr)", lit(r), lit(r))
+		},
+		func() string {
+			return fmt.Sprintf("im[%s] += 1\n\tim[%s] += 2\n\tout = append(out, im[%s], im[%s], len(im))", key(), akey(), key(), akey())
+		},
+		func() string {
+			return fmt.Sprintf("pm[&K%[1]s{1, 2}] = 1\n\tout = append(out, len(pm), pm[&K%[1]s{1, 2}])", sfx)
+		},
+		func() string { return fmt.Sprintf("emit(%s[%s] %% 1000)", operand(), key()) },
+		func() string {
+			return fmt.Sprintf("for i := 0; i < 3; i++ {\n\t\t%s[K%s{i, i}] += i\n\t\temit(grid%s[K%s{i, i}] %% 1000)\n\t}", lv(), sfx, sfx, sfx)
+		},
+		func() string {
+			return fmt.Sprintf("func() {\n\t\tgrid%[1]s[K%[1]s{x, 1}] = %d\n\t\tout = append(out, grid%[1]s[K%[1]s{x, 1}], local[K%[1]s{x, 1}])\n\t}()", sfx, lit(r))
+		},
+	}
+	for k, n := 0, 7+r.Intn(8); k < n; k++ {
+		sb.WriteString("\t" + tmpl[r.Intn(len(tmpl))]() + "\n")
+	}
+	fmt.Fprintf(&sb, "\temit(len(grid%[1]s))\n\treturn fmt.Sprint(out, len(grid%[1]s), len(local), len(h.m), len(pairs%[1]s))\n}\n", sfx)
+	return sb.String(), fmt.Sprintf("run%s()", sfx)
+}
+
+// genIndexProg: a program of class "index" (own stream: the ids and seeds of the 7-class rotation above are unchanged)
+func genIndexProg(r *vh.Rng, id int) *prog {
+	p := &prog{ID: id, Class: "index"}
+	p.Decls, p.Call = genIndex(r, fmt.Sprintf("P%d", id))
+	return p
+}
+
 // final untyped constant expressions (OptKeepUntyped stream)
 func genConst(r *vh.Rng) string {
 	switch r.Intn(8) {
